@@ -57,6 +57,31 @@ _PROP = re.compile(r'^Error: Action property (\w+) is violated')
 _POST = re.compile(r'POSTCONDITION|post-condition', re.I)
 
 
+def run_apalache(module, inv, tmpdir, cinit='CInit', length=0, timeout=900):
+    """Symbolic check (Apalache, SMT over unbounded integers) of spec/<module>.tla: invariant `inv` in all states reachable within
+    `length` steps from every constant valuation allowed by `cinit`.  Returns 'NoError' | 'Error' (a counterexample exists);
+    anything else is a machinery failure."""
+    work = tempfile.mkdtemp(prefix='apa_', dir=tmpdir)
+    for f in os.listdir(SPEC_DIR):
+        if f.endswith('.tla'):
+            shutil.copy(os.path.join(SPEC_DIR, f), work)
+    cmd = ['apalache-mc', 'check', '--cinit=' + cinit, '--inv=' + inv, '--length=%d' % length,
+           '--out-dir=' + os.path.join(work, 'out'), os.path.join(work, module + '.tla')]
+    e = dict(os.environ)
+    e.setdefault('JVM_ARGS', '-Xmx2g')
+    try:
+        p = subprocess.run(cmd, cwd=work, stdout=subprocess.PIPE, stderr=subprocess.STDOUT, timeout=timeout, env=e)
+    except FileNotFoundError:
+        raise MachineryError('apalache-mc is not on PATH')
+    except subprocess.TimeoutExpired:
+        raise MachineryError('Apalache timed out after %ss on %s.%s' % (timeout, module, inv))
+    out = p.stdout.decode('utf-8', 'replace')
+    m = re.search(r'The outcome is: (\w+)', out)
+    if not m or m.group(1) not in ('NoError', 'Error'):
+        raise MachineryError('Apalache gave no verdict on %s.%s: %s' % (module, inv, out[-600:]))
+    return m.group(1)
+
+
 def run_tlc(module, cfg_text, tmpdir, extra_modules=None, workers=1, simulate=None,
             depth=None, seed=1, coverage=True, timeout=1800, env=None, dfid=None,
             java_opts=None):
